@@ -111,6 +111,61 @@ example : (runBlocksR 0 Dec.zero [(1000000000, 100, Dec.zero), (2000000000, 100,
     rateTime 0 [(1000000000, 100, Dec.zero), (2000000000, 100, Dec.zero), (3000000000, 100, ⟨P⟩)]
       = 1000000000 * P := by decide
 
+/-- Rate changes, the other direction: while the pool cap never binds (`uncappedR`), the total paid over a
+    history with a piecewise-constant rate falls short of carried-in error + Σ_b rate_b·(t_b − t_{b−1}) by
+    less than 1 + n·10^-18 units (n blocks; the per-block `QuoInt64` truncation is stated, not hidden). -/
+theorem C19_staking_rate_changes_shortfall (t0 : Int) (e0 : Dec) (bs : List (Int × Int × Dec))
+    (he : 0 ≤ e0.m ∧ e0.m < P) (hs : okBlocksR t0 bs) (hu : uncappedR t0 e0 bs = true) :
+    rateTime t0 bs + NS * e0.m - NS * (sumL (runBlocksR t0 e0 bs).1 * P) < NS * (P + (bs.length : Int)) := by
+  obtain ⟨-, a2, -⟩ := runBlocksR_spec bs t0 e0 he.1 he.2 hs
+  have a4 := runBlocksR_lower bs t0 e0 he.1 he.2 hs hu
+  simp only [NS_val, P_val] at *; omega
+
+/-- The governance params-update message (`MsgUpdateParams`, x/community msg server): it fails on a wrong
+    authority and on invalid params; when it succeeds it stores the new params and is the identity on
+    everything the schedule depends on — accumulation time, carried truncation error, pool, fee collector —
+    and on the inflation parameters of the other modules. -/
+theorem C19_params_update_keeps_accrual (authOk : Bool) (new : CommParams) (s : CommSt) :
+    (authOk = false → updateParamsMsg authOk new s = .err) ∧
+    (new.valid = false → updateParamsMsg authOk new s = .err) ∧
+    (authOk = true → new.valid = true →
+      updateParamsMsg authOk new s = .ok { params := new, infl := s.infl, stk := s.stk }) := by
+  refine ⟨?_, ?_, ?_⟩
+  · intro h; simp [updateParamsMsg, h]
+  · intro h; cases authOk <;> simp [updateParamsMsg, h]
+  · intro h1 h2; simp [updateParamsMsg, h1, h2]
+
+/-- Rate changes by params-update messages interleaved with blocks (a message executes after the begin
+    blocker of its block): for ANY history of blocks `(time, pool seen)` and updates, from any stored rate,
+    the payouts are those of the block list in which every block carries the rate stored when its begin
+    blocker ran (`blocksOf`) — an update never touches the accumulation time or the carried error — so
+    `C19_staking_rate_changes` holds across updates: the error stays in [0,1),
+    paid + carried-out error ≤ carried-in error + Σ_b rate_b·(t_b − t_{b−1}), and while the cap never binds
+    the shortfall is < 1 + n·10^-18 units.  Nothing accrued before an update is dropped and nothing is
+    paid at the new rate for time before the block in which the update was stored. -/
+theorem C19_staking_rate_changes_messages (rate : Dec) (t0 : Int) (e0 : Dec) (hs : List HStep)
+    (he : 0 ≤ e0.m ∧ e0.m < P) (hok : okBlocksR t0 (blocksOf rate hs)) :
+    (0 ≤ (runHist rate t0 e0 hs).2.2.1.m ∧ (runHist rate t0 e0 hs).2.2.1.m < P) ∧
+    NS * (sumL (runHist rate t0 e0 hs).1 * P + (runHist rate t0 e0 hs).2.2.1.m)
+      ≤ rateTime t0 (blocksOf rate hs) + NS * e0.m ∧
+    (uncappedR t0 e0 (blocksOf rate hs) = true →
+      rateTime t0 (blocksOf rate hs) + NS * e0.m - NS * (sumL (runHist rate t0 e0 hs).1 * P)
+        < NS * (P + ((blocksOf rate hs).length : Int))) := by
+  obtain ⟨h1, -, h3⟩ := runHist_blocks hs rate t0 e0
+  rw [h1, h3]
+  obtain ⟨a1, a2, -⟩ := C19_staking_rate_changes t0 e0 (blocksOf rate hs) he hok
+  exact ⟨a1, a2, C19_staking_rate_changes_shortfall t0 e0 (blocksOf rate hs) he hok⟩
+
+/-- non-vacuity: 1 unit/s for 1.5 s (pays 1, carries 0.5), then a message sets 3 units/s, next block 1.5 s
+    later: pays 0.5 + 4.5 = 5 — the carried half unit and the whole second interval are paid, at the new
+    rate only from the update's block on; uncapped; the update leaves a concrete state's accrual alone -/
+example : (runHist ⟨P⟩ 0 Dec.zero [.block 1500000000 100, .update ⟨3 * P⟩, .block 3000000000 100]).1 = [1, 5] ∧
+    blocksOf ⟨P⟩ [.block 1500000000 100, .update ⟨3 * P⟩, .block 3000000000 100]
+      = [(1500000000, 100, ⟨P⟩), (3000000000, 100, ⟨3 * P⟩)] ∧
+    uncappedR 0 Dec.zero [(1500000000, 100, ⟨P⟩), (3000000000, 100, ⟨3 * P⟩)] = true ∧
+    okBlocksR 0 [(1500000000, 100, ⟨P⟩), (3000000000, 100, ⟨3 * P⟩)] :=
+  ⟨by decide, by decide, by decide, ⟨by decide, by decide, by decide, by decide, by decide, by decide, trivial⟩⟩
+
 /-- The keeper step `PayoutAccumulatedStakingRewards` on an initialised state never panics: it pays
     exactly what `calculateStakingRewards` returns, that amount is within `[0, pool]`, it moves from the
     community pool to the fee collector and nothing is created. -/
